@@ -410,3 +410,21 @@ def zlib_decode(data):
         return zlib.decompress(data)
     except zlib.error as e:
         raise DecodeError(str(e))
+
+
+def short_row_sweep():
+    """hostile predictor input, exhaustive over the length: for a handful of geometries and every predictor that touches rows, data of
+    EVERY length from 0 to three rows and two bytes (so: cut inside a row at every position, one byte short of a row, the tag alone,
+    a byte beyond a row), every row starting with a valid PNG filter tag.  -> (pred, colors, columns, bpc, data)"""
+    out = []
+    for (c, b, w) in ((1, 8, 1), (1, 8, 3), (3, 8, 2), (1, 1, 9), (2, 16, 2), (3, 4, 3), (1, 8, 13)):
+        rb = row_bytes(c, b, w)
+        for pred in (2, 10, 11, 12, 13, 14, 15):
+            step = rb + 1 if pred >= 10 else rb
+            for n in range(0, 3 * step + 3):
+                data = bytearray((37 * i + 11 * n + pred) % 256 for i in range(n))
+                if pred >= 10:
+                    for r, i in enumerate(range(0, n, step)):
+                        data[i] = (r + n + pred) % 5
+                out.append((pred, c, w, b, bytes(data)))
+    return out
